@@ -91,7 +91,9 @@ impl<'a> IrEmitter<'a> {
                 // If we have function signature, use it to determine borrows
                 if let Some(sig) = function_sig {
                     if let Some(param) = sig.params.get(idx) {
-                        if param.mutability == Mutability::Mutable {
+                        // `mut n: int` (also float, bool) is declared by value (`mut n: i64`): nothing to borrow
+                        let by_value = matches!(&param.ty, IrType::Int | IrType::Float | IrType::Bool);
+                        if param.mutability == Mutability::Mutable && !by_value {
                             match &a.ty {
                                 IrType::Ref(_) | IrType::RefMut(_) => return Ok(emitted),
                                 _ => return Ok(quote! { &mut #emitted }),
